@@ -219,6 +219,9 @@ inductive WriteOut
 /-- `clear_write_buffer` -/
 def clearWrite (c : Conn RL H) : Conn RL H := { c with respQ := [], respBuf := none }
 
+/-- `set_payload_max_size` (callable at any time; the limit is consulted when a header block ends) -/
+def setLimit (c : Conn RL H) (n : Nat) : Conn RL H := { c with limit := n }
+
 /-- `HttpConnection::try_write`, given what the single `stream.write` call returns.
     Result: new connection, outcome, the bytes the stream accepted, whether the stream was called. -/
 def tryWrite (c : Conn RL H) (w : SinkStep) : Conn RL H × WriteOut × List Byte × Bool :=
